@@ -58,16 +58,19 @@ CLAIMED = {
   technique="Lean 4 progress + termination-measure proofs over the transition system, deadlock witness by decide, fault-injection trace validation",
   design="6.C07"),
  "C05": dict(
-  text=("Proof: record-level round-trip theorems for all result maps: the BRDA records output_lcov writes (one per "
-        "slot, numbered from 0) re-imported in any order rebuild every branch vector; the DA records rebuild the "
-        "line map exactly (full 64-bit counts); iterating an observable-preserving round trip k+1 times equals one "
-        "(induction on k). Named _partial because the byte layer of the writer (decimal printing, FN/FNDA lines) is "
-        "not yet proved but tied: in-process parse_lcov(output_lcov(rs)) = rs on generated sets incl. 2^64-1 counts "
-        "and non-ASCII names, second export = first as record sets incl. summary lines, the Lean byte machine reads "
-        "the written bytes to the same result, and CLI chains r1 -> r2 -> r3 with -s/-p/--ignore/--keep-only/--filter."),
-  note=COMMON_NOTE + "Modelled, not verified: output_lcov's byte layer (checked through the independent report decoder "
-       "and the C04 byte machine); rewrite_paths idempotence is exercised through the CLI chains only (C11 models it).",
-  technique="Lean 4 record-level round-trip proofs + differential round trip on the implementation (in-process and CLI chains)",
+  text=("Proof: byte-level round trip - for every result set in the writer's domain (unique keys, u64 counts, u32 "
+        "line numbers, names/paths without line terminators, names valid UTF-8) the bytes written by the lcov writer "
+        "model printLcov (TN, SF, FN, FNDA, FNF/FNH, one BRDA per slot, BRF/BRH, DA, LF/LH, end_of_record, decimal "
+        "numbers) are read back by the reader model with branch parsing on to one record per file, in order "
+        "(C05_roundtrip_bytes), each carrying the same line counts, branch vectors, start lines and executed flags "
+        "(C05_roundtrip_same_data); record-level round trips also for records re-sorted by other tools; k+1 round trips "
+        "= 1 (induction on k). Tie: printLcov vs output_lcov byte for byte (sets with <= 1 function per file, hash "
+        "order is not modelled), parse_lcov vs Lcov.parse on every written report, in-process "
+        "parse_lcov(output_lcov(rs)) = rs incl. 2^64-1 counts and non-ASCII names, second export = first incl. summary "
+        "lines, CLI chains r1 -> r2 -> r3 with -s/-p/--ignore/--keep-only/--filter."),
+  note=COMMON_NOTE + "Hash-map iteration order of functions is not modelled (any order is covered by C04's fidelity "
+       "theorem); rewrite_paths idempotence is exercised through the CLI chains only (C11 models it).",
+  technique="Lean 4 byte-level writer/reader round-trip proof + byte-for-byte differential tie + round trips on the implementation (in-process and CLI chains)",
   design="6.C05"),
  "C06": dict(
   text=("Proof: for every shard tree (any partition, any nesting depth) whose inner nodes aggregate (C01 merge) and pass "
